@@ -427,7 +427,18 @@ where
             }
         }
 
-        self.idle.entry(token).or_default().push(connection);
+        let idle = self.idle.entry(token).or_default();
+        if idle.len() >= self.config.max_idle_per_host {
+            // Closed connections are only removed lazily, don't let them occupy a slot.
+            idle.retain_open();
+        }
+
+        if idle.len() >= self.config.max_idle_per_host {
+            trace!(?token, "idle connection limit reached, dropping connection");
+            return;
+        }
+
+        idle.push(connection);
     }
 
     fn pop(&mut self, token: Token) -> Option<C> {
